@@ -583,5 +583,75 @@ func checkC20(c *mc.Ctx) {
 			c.Ev.Sample(map[string]any{"stream": st.Name, "auto": auto, "example_ops": "DDPRD then Rewind, drain"})
 		}
 	}
-	c.Ev.Require("rewind-after-consumption", "rewind-with-skipper-or-parser")
+	c20Undetectable(c)
+	c.Ev.Require("rewind-after-consumption", "rewind-with-skipper-or-parser", "rewind-after-failed-detection")
+}
+
+// c20Undetectable: inputs whose packet size cannot be auto-detected (a single packet, a truncated
+// packet, 204-byte packets, an empty input). A fresh Demuxer reports the detection error on its
+// first call and ErrNoMorePackets afterwards; a rewound one must do exactly the same.
+func c20Undetectable(c *mc.Ctx) {
+	base := StandardStreams(c.Seed)[0].Bytes
+	inputs := map[string][]byte{"single-packet": base[:188], "truncated-packet": base[:100], "one-packet-and-3-bytes": base[:191], "204-byte-packets": enlarge(base[:3*188], 16), "empty": {}}
+	observe := func(d *astits.Demuxer, api byte, n int) (out []string) {
+		for i := 0; i < n; i++ {
+			var x any
+			var err error
+			if api == 'P' {
+				x, err = d.NextPacket()
+			} else {
+				x, err = d.NextData()
+			}
+			switch {
+			case errors.Is(err, astits.ErrNoMorePackets):
+				out = append(out, "end")
+			case err != nil:
+				out = append(out, "error: "+err.Error())
+			default:
+				out = append(out, mc.Canon(x))
+			}
+		}
+		return
+	}
+	var n int64
+	for name, in := range inputs {
+		for _, api := range []byte{'P', 'D'} {
+			fresh := observe(astits.NewDemuxer(context.Background(), bytes.NewReader(in)), api, 4)
+			r := mc.Radix{3, 3, 3, 3} // up to 4 operations before the final Rewind, over {none, NextPacket, NextData} ...
+			for i := int64(0); i < r.Size(); i++ {
+				dg := r.Digits(i, nil)
+				for _, mid := range []bool{false, true} { // ... with or without an extra Rewind in the middle
+					d := astits.NewDemuxer(context.Background(), bytes.NewReader(in))
+					ops := ""
+					for k, x := range dg {
+						if mid && k == 2 {
+							d.Rewind()
+							ops += "R"
+						}
+						switch x {
+						case 1:
+							d.NextPacket()
+							ops += "P"
+						case 2:
+							d.NextData()
+							ops += "D"
+						}
+					}
+					nn, err := d.Rewind()
+					got := observe(d, api, 4)
+					n++
+					if nn != 0 || err != nil || !equalStrs(got, fresh) {
+						c.Rep.Report("rewind-residue:failed-detection", map[string]any{"kind": "rewind", "stream": name, "auto": true, "ops": ops, "then": "Rewind + 4 calls of " + string(api), "bytes": mc.Hex(in),
+							"message": fmt.Sprintf("after %q + Rewind (returned %d, %v) the demuxer answers %v, a fresh one %v", ops, nn, err, got, fresh)})
+					}
+					if ops != "" && ops != "R" {
+						c.Ev.Class("rewind-after-failed-detection", 1)
+					}
+				}
+			}
+		}
+	}
+	c.Ev.AddScenario(mc.Scenario{Name: "rewind:undetectable-inputs", SpaceSize: n, Executed: n, Exhaustive: true,
+		Bound: "5 inputs whose packet size cannot be detected x all sequences of <= 4 NextPacket/NextData calls (optionally a Rewind in the middle) x final Rewind x 4 observed calls through each API, compared with a fresh Demuxer including the errors"})
+	c.Ev.DistinctAdd(n)
 }
